@@ -60,6 +60,28 @@ def mutants_of(fn):
             yield "L%d: drop `%s`" % (n.lineno, ast.unparse(n)[:50]), m
 
 
+def bcheck(prop, tmp, expect_violation):
+    """cross-check with the bounded layer on the same mutant.  A prop clause refuted by P on a mutant that B accepts is either a hole in the B
+    universe or a prop clause stronger than the property (candidate false alarm); a mutant that P still proves but B refutes is a hole in the
+    contracts or an unsound encoding.  Both are flagged for manual triage."""
+    bout = os.path.join(tmp, "b.json")
+    try:
+        subprocess.run(["/venv/bin/python", os.path.join(ROOT, "bounded", "run.py"), prop, "--tier", "quick", "--out", bout],
+                       env=dict(os.environ, VERIF_REPO=tmp, OMP_NUM_THREADS="1"), stdout=subprocess.DEVNULL, stderr=subprocess.DEVNULL, timeout=3600, cwd=tmp)
+        from vlib import findings
+        known = findings.load(os.path.join(ROOT, "known_findings.txt"))
+        b = json.load(open(bout))
+        new = [v for v in b["violations"] if not findings.match(known, prop, {"site": v["site"], "clause": v["clause"], "witness_class": v["witness_class"]})]
+        txt = "  B: %d new violation(s)%s" % (len(new), (" errors=%s" % str(b["errors"])[:80]) if b.get("errors") else "")
+        if expect_violation and not new and not b.get("errors"):
+            txt += "  <== P-only"
+        if not expect_violation and (new or b.get("errors")):
+            txt += "  <== B-only (contract hole?) " + "; ".join(sorted({v["clause"] for v in new}))[:100]
+        return txt
+    except Exception as e:  # noqa
+        return "  B: no result (%s)" % e
+
+
 def main():
     prop = sys.argv[1]
     mx = int(sys.argv[sys.argv.index("--max") + 1]) if "--max" in sys.argv else 10
@@ -109,21 +131,30 @@ def main():
                                env=dict(os.environ, VERIF_REPO=tmp, PYTHONPATH=ROOT), stdout=subprocess.DEVNULL, stderr=subprocess.DEVNULL, timeout=900)
                 r = json.load(open(out))
                 st = [o["status"] for f in r["functions"] for o in f["obligations"]]
+                failed = [o for f in r["functions"] for o in f["obligations"] if o["status"] == "failed"]
+                extra = ""
                 if r.get("errors"):
                     kind = "error"
                 elif "failed" in st:
                     kind = "refuted"
+                    is_prop = any(o.get("prop") for o in failed)
+                    extra = "  [%s: %s]" % ("prop" if is_prop else "aux", ", ".join(sorted({o["name"].split("#")[-1] for o in failed}))[:120])
+                    if "--bcheck" in sys.argv:
+                        extra += bcheck(prop, tmp, expect_violation=True)
                 elif any(s != "discharged" for s in st):
                     kind = "proof-broken"
                 else:
                     kind = "survived"
+                    if "--bcheck" in sys.argv:
+                        # a survivor that layer B refutes is a hole in the contracts (or an unsound encoding): manual triage
+                        extra += bcheck(prop, tmp, expect_violation=False)
             except Exception as e:  # noqa
-                kind = "error"
+                kind, extra = "error", " %s" % e
             finally:
                 shutil.rmtree(tmp, ignore_errors=True)
             summary[kind] += 1
             details.append((qual, desc, kind))
-            print("%-14s %-60s %s" % (kind, qual, desc), flush=True)
+            print("%-14s %-60s %s%s" % (kind, qual, desc, extra), flush=True)
     print(json.dumps(summary))
 
 
